@@ -221,6 +221,10 @@ class CoroutineProcessor(Processor):
                     del self._generators[gen]
                     self._kill_queue.discard(gen)
                     del self._promises[gen]
+                    # Let go of it now, while the queues are consistent:
+                    # its clean-up code (try/finally) may start or kill
+                    # other coroutines, eg. the next one to be woken
+                    gen = None
                 else:
                     self._active_queue.append(gen)
                     self._generators[gen] = None
